@@ -96,7 +96,8 @@ class Model:
                 ev = self._flag(ev, "work")
             ts = (d, v, f, ev, np)
             if name in ("defer_op", "apply", "resolve"):
-                return [(variant("Ok", const(1)), (d_add(d, 1), v, f, ev, np)), (variant("Ok", const(0)), ts), (variant("Err", TOP), ts)]
+                declined = (d, v, f, self._flag(ev, "declined"), np)
+                return [(variant("Ok", const(1)), (d_add(d, 1), v, f, self._flag(ev, "accepted"), np)), (variant("Ok", const(0)), declined), (variant("Err", TOP), ts)]
         dty = interp.mir["locals"][t["dest"]["l"]]["ty"] if not t["dest"]["p"] else ""
         E = variant("Err", TOP)
         if name == "push_register":
